@@ -438,6 +438,47 @@ def r04_8(ctx):
         raise AnalysisError(f"only {n_sites} accumulating dep/visibility stores found")
 
 
+def _list_options(repo) -> Set[str]:
+    """keys of the grammar's per-entry option dictionary that hold a list (one element per option line)"""
+    out: Set[str] = set()
+    for f in repo.funcs_in("esp_kconfiglib.kconfig_grammar"):
+        for n in ast.walk(f.node):
+            if isinstance(n, ast.Dict) and len(n.keys) >= 6 and all(isinstance(k, ast.Constant) and isinstance(k.value, str) for k in n.keys):
+                ks = {k.value for k in n.keys}
+                if {"depends_on", "default", "select"} <= ks:
+                    out |= {k.value for k, v in zip(n.keys, n.values) if isinstance(v, ast.List) and not v.elts}
+    return out
+
+
+def r04_8b(ctx):
+    """R04.8b parser 2 consumes every line of a repeatable option: the grammar collects `depends on`, `visible if`, `default`,
+    `select` ... lines into lists; nothing in the tree builder picks a fixed element (`opts["visible_if"][0]`) out of such a
+    list - parser 1 applies every line (ANDing conditions, appending properties)."""
+    repo = ctx.repo
+    keys = _list_options(repo)
+    if len(keys) < 8:
+        raise AnchorError(f"kconfig_grammar: list-valued option keys not found ({sorted(keys)})")
+    exempt = {"option": "parser 2 supports `option env=` only, once per entry (any further `option` line is a parser-2 syntax limitation, reported at parse time)"}
+    n = 0
+    for f in repo.funcs_in(P2):
+        for x in ast.walk(f.node):
+            if isinstance(x, ast.Subscript) and isinstance(x.slice, ast.Constant) and isinstance(x.slice.value, int) and isinstance(x.value, ast.Subscript) \
+                    and isinstance(x.value.slice, ast.Constant) and x.value.slice.value in keys and repo.enclosing_func(x) is f:
+                k = x.value.slice.value
+                n += 1
+                construct = f"{f.short}/every `{k}` line is used, not a fixed one"
+                if k in exempt:
+                    ctx.exempt(construct, exempt[k], f.loc(x))
+                else:
+                    ctx.bad(construct, f"`{ast.unparse(x)}` picks one line out of the list the grammar collected: an entry with several `{k.replace('_', ' ')}` lines "
+                            "is built from one of them in parser 2 and from all of them in parser 1", f.loc(x))
+    for k in sorted(keys):
+        loops = [lp for f in repo.funcs_in(P2) for lp in ast.walk(f.node) if isinstance(lp, ast.For) and isinstance(lp.iter, ast.Subscript)
+                 and isinstance(lp.iter.slice, ast.Constant) and lp.iter.slice.value == k]
+        if loops:
+            ctx.ok(f"Parser (v2)/`{k}` lines are iterated", "", nontrivial=False, loops=len(loops))
+
+
 def r04_9(ctx):
     """R04.9 sibling details of the two front ends: `$(NAME)` is looked up as a macro before the environment in both parsers;
     parser 1 expands tabs over the whole help line (as parser 2's preprocess_file does)."""
@@ -547,6 +588,6 @@ def r04_11(ctx):
 
 def rules():
     return [("R04.11", r04_11, 3), ("R04.10", r04_10, 4), ("R04.1", r04_1, 20), ("R04.2", r04_2, 25), ("R04.3", r04_3, 14), ("R04.4", r04_4, 8), ("R04.5", r04_5, 5),
-            ("R04.6", r04_6, 3), ("R04.7", r04_7, 3), ("R04.8", r04_8, 4), ("R04.9", r04_9, 2)]
+            ("R04.6", r04_6, 3), ("R04.7", r04_7, 3), ("R04.8", r04_8, 4), ("R04.8b", r04_8b, 5), ("R04.9", r04_9, 2)]
 
 
